@@ -320,7 +320,9 @@ void ezc3d::c3d::frame(const ezc3d::DataNS::Frame &f, size_t idx)
         if (!(nAnalogs==0 && nAnalogByFrames==0) && nChannel != nAnalogs )
             throw std::runtime_error("Number of analogs in ANALOG:USED parameter must equal "
                                      "the number of analogs sent in the frame");
-    }
+    } else if (nAnalogs != 0)
+        throw std::runtime_error("Number of analogs in ANALOG:USED parameter must equal "
+                                 "the number of analogs sent in the frame");
 
     // Replace the jth frame
     _data->frame(f, idx);
